@@ -2,9 +2,11 @@
 // holding that argument's own JSON encoding" -- the encoding of `None` is `null`, the entry is present).
 //   contract Op: exec opt_arg(o: Option<u64>, p: u64)      query opt_q(o: Option<u32>) -> u8
 //                instantiate(o: Option<u64>)
+//   unusual ARGUMENT names (the wire key is the argument's name, verbatim):
+//                exec arg_names(type_: u64, _lead: u64, x2: u64)     migrate(ref_: u64)
 
 pub mod op {
-    use sylvia::ctx::{ExecCtx, InstantiateCtx, QueryCtx};
+    use sylvia::ctx::{ExecCtx, InstantiateCtx, MigrateCtx, QueryCtx};
     use sylvia::cw_std::{Response, StdResult};
 
     pub struct Op;
@@ -24,6 +26,18 @@ pub mod op {
         #[sv::msg(exec)]
         pub fn opt_arg(&self, _ctx: ExecCtx, o: Option<u64>, p: u64) -> StdResult<Response> {
             let _ = (o, p);
+            Ok(Response::new())
+        }
+
+        #[sv::msg(exec)]
+        pub fn arg_names(&self, _ctx: ExecCtx, type_: u64, _lead: u64, x2: u64) -> StdResult<Response> {
+            let _ = (type_, _lead, x2);
+            Ok(Response::new())
+        }
+
+        #[sv::msg(migrate)]
+        pub fn migrate(&self, _ctx: MigrateCtx, ref_: u64) -> StdResult<Response> {
+            let _ = ref_;
             Ok(Response::new())
         }
 
